@@ -12,6 +12,9 @@
 #define NLEN 2
 #endif
 #define NOBJ 4
+#ifndef MLEN
+#define MLEN 2
+#endif
 #define LMAX (2 * L + 2)
 struct Inputs { unsigned char sel[L]; unsigned char osel[L]; int64_t oval[NOBJ]; int64_t idx; unsigned char x; uint64_t m; uint64_t rs; };
 #ifndef V_REPLAY_INPUT_ONLY
@@ -43,6 +46,10 @@ static long obj_index(var p) { for (long i = 0; i < NOBJ; i++) if (p == obj(i)) 
 static int64_t oval(var p) { return *(int64_t*)p; }
 bool verif_eq(var a, var b) { return oval(a) == oval(b); }
 static bool v_lt(var a, var b) { return oval(a) < oval(b); }
+/* OP_CMPHASH: item-level cmp / hash are the items' own (Int) instances; redirected here (replace-calls) because the items
+ * are symbolic choices among the harness objects and the dispatcher does not fold on a merged pointer */
+int v_cmp_items(var a, var b) { int64_t x = oval(a), y = oval(b); return x < y ? -1 : x > y ? 1 : 0; }
+uint64_t v_hash_items(var a) { return (uint64_t)oval(a); }
 static var mark_gc = NULL; static var mark_seen[LMAX]; static int mark_n = 0; static _Bool mark_gc_ok = 1;
 static void mark_rec(var gc, void* p) { if (gc != mark_gc) mark_gc_ok = 0; if (mark_n < LMAX) mark_seen[mark_n] = p; mark_n++; }
 
@@ -62,6 +69,7 @@ static void mark_rec(var gc, void* p) { if (gc != mark_gc) mark_gc_ok = 0; if (m
 #define OP_ASSIGN 14
 #define OP_MARK 15
 #define OP_REM_CALLS 16
+#define OP_CMPHASH 17
 
 static long R[LMAX]; static size_t rn;
 static struct Tuple* make_tuple(size_t n, const unsigned char* sel) {
@@ -160,6 +168,36 @@ V_HARNESS {
     for (size_t i = 0; i < L; i++) if (i < om) R[rn + i] = IN.osel[i];
     rn += om;
     V_WITNESS("concat done"); V_ASSERT(agrees(t), "concat: appends the other sequence in order"); }
+#elif OP == OP_ASSIGN
+  /* assign from another heap Tuple of any length (shorter, equal, longer): exactly the source's items, terminated, inside the allocation */
+  { size_t om = MLEN; struct Tuple* o = make_tuple(om, IN.osel);
+    Tuple_Assign(t, o);
+    rn = om; for (size_t i = 0; i < L; i++) if (i < om) R[i] = IN.osel[i];
+    V_WITNESS("assign done");
+    V_ASSERT(agrees(t), "assign: the Tuple holds exactly the items of its source, in order, then Terminal (also when the source is shorter)");
+    _Bool src_ok = o->items[om] == Terminal; for (size_t i = 0; i < L; i++) if (i < om && o->items[i] != obj(IN.osel[i])) src_ok = 0;
+    V_ASSERT(src_ok, "assign leaves its source alone"); }
+#elif OP == OP_CMPHASH
+  /* C09 / C10: Tuple_Cmp = induced lexicographic order of the item values, the shorter sequence first on a common
+   * prefix (through the real iteration of the other Tuple and the real Int comparison); Tuple_Hash = XOR fold */
+  { size_t om = MLEN; struct Tuple* o = make_tuple(om, IN.osel);
+    for (size_t i = 0; i < L; i++) for (size_t j = 0; j < L; j++) if (i < j && j < om) V_ASSUME(IN.osel[i] != IN.osel[j]);   /* cmp iterates the other side (cursor by identity) */
+    int want = 0;
+    for (size_t i = 0; i < L + 1 && want == 0; i++) {
+      if (i >= n && i >= om) break;
+      if (i >= n) { want = -1; break; }
+      if (i >= om) { want = 1; break; }
+      int64_t a = IN.oval[R[i]], b = IN.oval[IN.osel[i]];
+      if (a < b) want = -1; else if (a > b) want = 1;
+    }
+    _Bool t_distinct = 1; for (size_t i = 0; i < L; i++) for (size_t j = 0; j < L; j++) if (i < j && j < n && R[i] == R[j]) t_distinct = 0;
+    int c1 = Tuple_Cmp(t, o);
+    V_WITNESS("compared");
+    V_ASSERT(c1 == want, "Tuple cmp is the lexicographic order of the items, the shorter sequence first on a common prefix");
+    if (t_distinct) { int c2 = Tuple_Cmp(o, t); V_ASSERT(c2 == -want, "sign(cmp(a,b)) == -sign(cmp(b,a))"); }   /* the right operand is iterated: same object twice = known finding */
+    uint64_t hw = 0; for (size_t i = 0; i < L; i++) if (i < n) hw ^= (uint64_t)IN.oval[R[i]];
+    V_ASSERT(Tuple_Hash(t) == hw, "Tuple hash is the XOR fold of the item hashes (equal sequences hash equally)");
+    V_ASSERT(agrees(t), "comparison and hashing change nothing"); }
 #elif OP == OP_RESIZE
   { size_t rs = IN.rs % (L + 2);
     if (rs >= n) { snapshot(t); expect_throw = FormatError; }
